@@ -29,6 +29,9 @@ class Engine {
   // Number of systematically enumerated scenarios at the start of the index space (0 = none).
   virtual uint64_t enumerated(const std::string& prop, const std::string& tier) { (void)prop; (void)tier; return 0; }
   virtual RunResult run(const Json& scenario) = 0;
+  // A fault-free scenario that can be produced without running the system under test (null if generate() never does):
+  // the supervisor falls back to it when every worker dies before its first scenario.
+  virtual Json baseline(const std::string& prop) { (void)prop; return Json(); }
   // Static description for evidence (components real / stub, assumptions)
   virtual Json describe(const std::string& prop) { (void)prop; return Json::object(); }
 };
